@@ -10,9 +10,14 @@ ASSUME = ["termination is decided on logical steps (token look-ups counted by ho
           "'roughly linear' is read as: steps(4n)/steps(n) <= 4.6 at fixed nesting depth"]
 
 
+# the same check interpreted by Miri: the parser sink reinterprets Vec<Option<Event>> and walks raw pointers
+MIRI = {"quick": ["--maxlen", "2", "--random", "1200", "--mutants", "160"],
+        "thorough": ["--maxlen", "3", "--random", "16000", "--mutants", "1600"], "shards": 16}
+
+
 def run(tier, seed):
     return run_probe_check("C23", tier, seed, RULE, ASSUME, corpus=True, shards=16 if tier == "thorough" else 8,
-                           extra=["--maxlen", "6" if tier == "thorough" else "5"], min_evals=100000)
+                           extra=["--maxlen", "6" if tier == "thorough" else "5"], min_evals=100000, miri=MIRI)
 
 
 def replay(path):
